@@ -100,6 +100,12 @@ func (s *Sim) finish(r *RunResult) {
 		r.Stuck = fmt.Sprintf("step budget of %d exhausted", s.MaxSteps)
 	}
 	r.Trace = s.Trace
+	if r.Viol != nil || r.Stuck != "" {
+		// where is everybody? (for the human reading the replay file)
+		for _, n := range s.Alive(false) {
+			r.Trace = append(r.Trace, "    # alive at the end: "+shortName(n)+" @ "+s.ParkedOn(n))
+		}
+	}
 	s.R.End()
 }
 
